@@ -143,7 +143,7 @@ type rawLine struct {
 	line int
 }
 
-var tagRe = regexp.MustCompile(`^\[(C[0-9]+(?:\s*,\s*C[0-9]+)*)\]`)
+var tagRe = regexp.MustCompile(`^\[((?:C[0-9]+|slow)(?:\s*,\s*(?:C[0-9]+|slow))*)\]`)
 
 func splitTags(s string) ([]string, string) {
 	s = strings.TrimSpace(s)
@@ -886,8 +886,30 @@ func (f *FuncSpec) HasTag(p string) bool {
 	return false
 }
 
+// isSlow: the clause is marked [slow]: its obligations are proved in the thorough tier only (the
+// quick tier still assumes the clause wherever it is an assumption).
+func isSlow(cl *Clause) bool {
+	if cl == nil {
+		return false
+	}
+	for _, t := range cl.Tags {
+		if t == "slow" {
+			return true
+		}
+	}
+	return false
+}
+
 func clauseHasTag(fs *FuncSpec, cl *Clause, p string) bool {
-	if cl != nil && len(cl.Tags) > 0 {
+	nprop := 0
+	if cl != nil {
+		for _, t := range cl.Tags {
+			if t != "slow" {
+				nprop++
+			}
+		}
+	}
+	if cl != nil && nprop > 0 {
 		for _, t := range cl.Tags {
 			if t == p {
 				return true
